@@ -53,9 +53,16 @@ def field_value(draw, name, kind):
 @st.composite
 def layer(draw):
     """Returns (source text, model) with model = {"fields": {name: vis}, "removed": [names], "plain": bool, "reads": {name: set}}."""
-    kind = draw(st.sampled_from(["lit", "lit", "lit", "lit", "comp", "remove", "mergepatch", "prune", "mapwithkey", "empty", "nested-plus"]))
+    kind = draw(st.sampled_from(["lit", "lit", "lit", "lit", "comp", "remove", "mergepatch", "prune", "mapwithkey", "empty", "nested-plus", "assert-mixin"]))
     if kind == "empty":
         return "{}", {"fields": {}, "removed": [], "features": set()}
+    if kind == "assert-mixin":
+        # a validation mixin: no fields, an assertion about the final object (it may legitimately fail)
+        n = draw(st.sampled_from(POOL))
+        k = draw(st.sampled_from([-1, 3, 6, 50, 1000]))
+        loc = "local lim = %d, " % k if draw(st.booleans()) else ""
+        lim = "lim" if loc else str(k)
+        return "{%sassert std.get(self, %s, 0) <= %s : '%s exceeds %d'}" % (loc, JS(n), lim, n, k), {"fields": {}, "removed": [], "features": {"assert-mixin"}}
     names = draw(st.lists(st.sampled_from(POOL), min_size=1, max_size=3, unique=True))
     feats = set()
     if kind == "lit" or kind == "remove" or kind == "nested-plus":
@@ -233,15 +240,21 @@ def check_chain(case):
     for name, e in variants:
         r = record(e)
         if "ok" not in r:
+            if r["err"].get("variant") == "AssertFailed" and any("assert-mixin" in m["features"] for m in models):
+                # a validation mixin rejects the final object: every variant must be rejected with the same message
+                recs.append((name, e, {"o": [["assert-failed", r["err"]["detail"]["message"]]]}))
+                continue
             raise Violation("chain-fails", f"{name}: inspecting {e[:500]} failed: {r['err'].get('variant')} {r['err'].get('detail')}")
         recs.append((name, e, util.typed(r)))
     base = recs[0]
     for name, e, rec in recs[1:]:
         if rec != base[2]:
             d0, d1 = rec_dict(base[2]), rec_dict(rec)
-            diff = [k for k in d0 if d0[k] != d1.get(k)]
+            diff = [k for k in sorted(set(d0) | set(d1)) if d0.get(k) != d1.get(k)]
             sig = "identity" if "{}" in name else ("associativity" if "nested" in name or "bracketing" in name else "sharing")
-            raise Violation(f"{sig}:{diff[0] if diff else '?'}", f"{base[0]} and {name} differ in {diff}: {base[1][:400]} gives {V.show(d0[diff[0]])[:200]}, {e[:400]} gives {V.show(d1[diff[0]])[:200]}")
+            raise Violation(f"{sig}:{diff[0] if diff else '?'}", f"{base[0]} and {name} differ in {diff}: {base[1][:400]} gives {str(d0.get(diff[0]))[:200]}, {e[:400]} gives {str(d1.get(diff[0]))[:200]}")
+    if rec_dict(base[2]).get("assert-failed") is not None:
+        return {"nontrivial": True, "labels": ["assert-mixin-fails"], "sample": left[:400]}
     fields, fields_all = check_internal(base[2], left[:500])
     # L4: visibility computed from the chain
     exp = expected_visibility(models)
@@ -276,10 +289,14 @@ def check_remove(case):
     obj = "(" + " + ".join(srcs) + ")"
     r0 = record(obj)
     if "ok" not in r0:
+        if r0["err"].get("variant") == "AssertFailed" and any("assert-mixin" in m["features"] for m in models):
+            return {"labels": ["assert-mixin-fails"]}
         raise Violation("chain-fails", f"inspecting {obj[:500]} failed: {r0['err']}")
     before = rec_dict(util.typed(r0))
     removed = f"std.objectRemoveKey({obj}, {JS(k)})"
     r1 = record(removed)
+    if "ok" not in r1 and r1["err"].get("variant") == "AssertFailed" and any("assert-mixin" in m["features"] for m in models):
+        return {"labels": ["assert-mixin-fails-after-removal"]}
     if "ok" not in r1:
         raise Violation("remove-fails", f"inspecting {removed[:500]} failed: {r1['err'].get('variant')} {r1['err'].get('detail')}")
     fields, fields_all = check_internal(util.typed(r1), removed[:500])
@@ -304,6 +321,8 @@ def check_remove(case):
     if extra is not None:
         e2 = f"({removed} + {extra})"
         r2 = record(e2)
+        if "ok" not in r2 and r2["err"].get("variant") == "AssertFailed" and any("assert-mixin" in m["features"] for m in models):
+            return {"labels": ["assert-mixin-fails-after-extension"]}
         if "ok" not in r2:
             raise Violation("remove-extend-fails", f"inspecting {e2[:500]} failed: {r2['err'].get('variant')} {r2['err'].get('detail')}")
         f2, fa2 = check_internal(util.typed(r2), e2[:500])
@@ -328,6 +347,6 @@ def check_remove(case):
 
 
 CHECKS = [
-    Check("chains_and_views", check_chain, chain_case, quick=150, thorough=6000),
-    Check("object_remove_key", check_remove, remove_case, quick=150, thorough=6000),
+    Check("chains_and_views", check_chain, chain_case, quick=400, thorough=6000),
+    Check("object_remove_key", check_remove, remove_case, quick=300, thorough=6000),
 ]
